@@ -10,19 +10,21 @@
 
 #include "squid.h"
 #include "AccessLogEntry.h"
+#include "format/Format.h"
 #include "HttpRequest.h"
 #include "log/File.h"
 #include "log/Formats.h"
+#include "MemBuf.h"
 
 void
 Log::Format::SquidReferer(const AccessLogEntry::Pointer &al, Logfile *logfile)
 {
-    const char *referer = nullptr;
-    if (al->request)
-        referer = al->request->header.getStr(Http::HdrType::REFERER);
-
-    if (!referer || *referer == '\0')
-        referer = "-";
+    // The value is written as a bare field. Encode it the way the logformat engine
+    // encodes the %{Referer}>h token of this format's documented definition
+    // (pass-through URL encoding), so that whitespace cannot split the field.
+    MemBuf referer;
+    referer.init();
+    ::Format::AssembleOne("%{Referer}>h", referer, al);
 
     char clientip[MAX_IPSTRLEN];
     al->getLogClientIp(clientip, MAX_IPSTRLEN);
@@ -33,7 +35,7 @@ Log::Format::SquidReferer(const AccessLogEntry::Pointer &al, Logfile *logfile)
                   (long int) current_time.tv_sec,
                   (int) current_time.tv_usec / 1000,
                   clientip,
-                  referer,
+                  referer.content(),
                   SQUIDSBUFPRINT(url));
 }
 
